@@ -253,6 +253,9 @@ def check_invariant(cap, st, node, objv, rec, what):
             else:
                 cap.oblige(st, "nul", node, r.nul - L - buf[2] + buf[2], "%s: terminator at offset %s, before len %s" % (what, r.nul, L))
                 cap.oblige(st, "nul", node, L - r.nul, "%s: terminator at offset %s, past len %s" % (what, r.nul, L))
+                if r.slen is not None and buf[2].is_const() and buf[2].c == 0:
+                    # the FIRST NUL of the text, where it is known (a copy that brought an earlier terminator along)
+                    cap.oblige(st, "nul", node, r.slen - L, "%s: the text ends at offset %s (an embedded NUL), before len %s" % (what, r.slen, L))
 
 
 def analyse(prog, fn, cap=None):
